@@ -123,7 +123,7 @@ def run(chk):
                 chk.violation("fin-left-vs-right", dict(kind="mirror", what="fin", scene=sd, aircraft=ac, state=st, differences=bad[:8]))
             continue
         sides = ("both",) if kind == "symmetric" else ("both", "left", "right")
-        ac = gen.gen_aircraft(rng, chk.hist, max_wings=3, sides=sides, allow_fin=(kind != "symmetric"))
+        ac = gen.gen_aircraft(rng, chk.hist, max_wings=3, sides=sides, allow_fin=(kind != "symmetric"), qc_points_p=0.2)
         if kind == "symmetric":
             ac["CG"][1] = 0.0
             for w in ac["wings"].values():
